@@ -266,7 +266,14 @@ def invalid_sentences(draw, tier):
         expect = "InconsistentDimensionsError"
     else:
         victim = draw(st.sampled_from(used))
-        text = f"out({victim}) = {rhs}"
+        # put the tensor's name where an index belongs: in the target, or in ANY index slot of ANY access
+        slots = [m for m in re.finditer(r"[(,] *([A-Za-z][A-Za-z0-9]*) *(?=[,)])", rhs)]
+        if slots and draw(st.integers(0, 3)):
+            mt = slots[draw(st.integers(0, len(slots) - 1))]
+            rhs2 = rhs[: mt.start(1)] + victim + rhs[mt.end(1):]
+            text = f"out(i) = {rhs2}"
+        else:
+            text = f"out({victim}) = {rhs}"
         expect = "NameConflictError"
     return {"text": text, "kind": "invalid", "expect": expect}
 
